@@ -236,10 +236,21 @@ class DictField(Field):
 
         if isinstance(value, dict) and not isinstance(value, DictProxy):
             # keys and values have their own on-disk form (bytes, digests, secrets, ...)
-            value = {
-                self.key_field.to_python(cfg, key): self.value_field.to_python(  # type: ignore
-                    cfg, val
-                )
-                for key, val in value.items()
-            }
+            decoded = {}
+            for key, val in value.items():
+                try:
+                    decoded[self.key_field.to_python(cfg, key)] = self.value_field.to_python(  # type: ignore
+                        cfg, val
+                    )
+                except ValidationError:
+                    raise
+                except Exception as exc:
+                    # name the entry, like DictProxy does for values it rejects
+                    raise ValidationError(
+                        cfg,
+                        self,
+                        "invalid dictionary value: %s" % exc,
+                        ref_path="%s[%s]" % (self._ref_path, key),
+                    ) from exc
+            value = decoded
         return DictProxy(cfg, self, value)
